@@ -5,8 +5,10 @@ Line-protocol operations for the tree model: `tree <op> args…` (see `harness/p
 * characters are code points (`Nat`), leaves of dictionaries and array entries are integers;
 * a key is `K` followed by its code points joined with `.`; a dictionary is written in prefix
   notation `D<n> key value … `, a leaf `L<int>`;
-* an array in the axis-major view is `row;row;…` with `row = v,v,…` (`e` = no slice), the leaves of a
-  tree are joined with `|` (`E` = no leaf), trees with `/` (`N` = no tree).
+* an array in the axis-major view is `off:row;row;…` with `off = d1xd2x…` its shape without the working
+  axis (`_` = rank 1) and `row = v,v,…` one flattened slice (`e` = no slice; the empty string = a slice
+  without entries), a whole array is `shape:v,v,…`; the leaves of a tree are joined with `|` (`E` = no
+  leaf), trees with `/` (`N` = no tree); the blocks of `resample` are plain `row;row;…`.
 -/
 namespace Dino.Tree
 open Dino
@@ -90,27 +92,59 @@ def renderDictE (r : Except Err DD) : String :=
 
 /-! ### arrays -/
 
-def parseRow? (s : String) : Option (List Int) := (s.splitOn ",").mapM String.toInt?
+/-- one flattened slice `v,v,…` (the empty string: a slice without entries) -/
+def parseRow? (s : String) : Option (List Int) :=
+  if s = "" then some [] else (s.splitOn ",").mapM String.toInt?
 
-def parseLeaf? (s : String) : Option (List (List Int)) :=
+/-- a plain block of rows `row;row;…` (`e` = no row) -/
+def parseRows? (s : String) : Option (List (List Int)) :=
   if s = "e" then some [] else (s.splitOn ";").mapM parseRow?
 
-def parseLeaves? (s : String) : Option (List (List (List Int))) :=
+/-- a shape `d1xd2x…` (`_` = the empty shape) -/
+def parseShape? (s : String) : Option (List Nat) :=
+  if s = "_" then some [] else (s.splitOn "x").mapM String.toNat?
+
+/-- a leaf in the axis-major view: `off:row;row;…` -/
+def parseLeaf? (s : String) : Option (Leaf Int) :=
+  match s.splitOn ":" with
+  | [o, r] => do let off ← parseShape? o; let rows ← parseRows? r; pure ⟨off, rows⟩
+  | _ => none
+
+def parseLeaves? (s : String) : Option (List (Leaf Int)) :=
   if s = "E" then some [] else (s.splitOn "|").mapM parseLeaf?
 
-def parseTrees? (s : String) : Option (List (List (List (List Int)))) :=
+def parseTrees? (s : String) : Option (List (List (Leaf Int))) :=
   if s = "N" then some [] else (s.splitOn "/").mapM parseLeaves?
+
+/-- a whole array `shape:v,v,…` -/
+def parseArr? (s : String) : Option (Arr Int) :=
+  match s.splitOn ":" with
+  | [o, r] => do let shape ← parseShape? o; let data ← parseRow? r; pure ⟨shape, data⟩
+  | _ => none
+
+def parseArrs? (s : String) : Option (List (Arr Int)) :=
+  if s = "E" then some [] else (s.splitOn "|").mapM parseArr?
 
 def renderRow (r : List Int) : String := ",".intercalate (r.map toString)
 
-def renderLeaf (l : List (List Int)) : String :=
+def renderRows (l : List (List Int)) : String :=
   if l.isEmpty then "e" else ";".intercalate (l.map renderRow)
 
-def renderLeaves (ls : List (List (List Int))) : String :=
+def renderShape (l : List Nat) : String :=
+  if l.isEmpty then "_" else "x".intercalate (l.map toString)
+
+def renderLeaf (l : Leaf Int) : String := renderShape l.off ++ ":" ++ renderRows l.slices
+
+def renderLeaves (ls : List (Leaf Int)) : String :=
   if ls.isEmpty then "E" else "|".intercalate (ls.map renderLeaf)
 
-def renderTrees (ts : List (List (List (List Int)))) : String :=
+def renderTrees (ts : List (List (Leaf Int))) : String :=
   if ts.isEmpty then "N" else "/".intercalate (ts.map renderLeaves)
+
+def renderArr (a : Arr Int) : String := renderShape a.shape ++ ":" ++ renderRow a.data
+
+def renderArrs (ls : List (Arr Int)) : String :=
+  if ls.isEmpty then "E" else "|".intercalate (ls.map renderArr)
 
 /-! ### spectral, dims -/
 
@@ -141,7 +175,7 @@ def renderNames (l : List String) : String := if l.isEmpty then "_" else ",".int
 
 def renderResample (tag : String) (r : Except Err (List (List Int))) : String :=
   match r with
-  | .ok x => tag ++ " " ++ renderLeaf x
+  | .ok x => tag ++ " " ++ renderRows x
   | .error e => e.render
 
 /-! ### dispatch -/
@@ -183,16 +217,16 @@ def run : List String → Option String
       match unpack arr sizes with
       | .ok ls => pure ("ok " ++ renderLeaves ls)
       | .error e => pure e.render
-  | ["stack", rows] => do
-      let rows ← parseLeaf? rows
-      match stack rows with
+  | ["stack", arrs] => do
+      let arrs ← parseArrs? arrs
+      match stack arrs with
       | .ok none => pure "none"
       | .ok (some a) => pure ("ok " ++ renderLeaf a)
       | .error e => pure e.render
   | ["unstack", arr, n] => do
       let arr ← parseLeaf? arr; let n ← n.toNat?
       match unstack arr n with
-      | .ok ls => pure ("ok " ++ renderLeaf ls)
+      | .ok ls => pure ("ok " ++ renderArrs ls)
       | .error e => pure e.render
   | ["splitalong", leaves, idx] => do
       let leaves ← parseLeaves? leaves; let idx ← idx.toInt?
@@ -216,18 +250,17 @@ def run : List String → Option String
         | .error e => pure e.render
       else
         match splitAxisSqueeze leaves with
-        | .ok ts => pure ("ok " ++ (if ts.isEmpty then "N" else
-            "/".intercalate (ts.map (fun t => "|".intercalate (t.map renderRow)))))
+        | .ok ts => pure ("ok " ++ (if ts.isEmpty then "N" else "/".intercalate (ts.map renderArrs)))
         | .error e => pure e.render
   | ["resample", kind, c1, c2, sameV, es, x] => do
       let c1 ← parseHoriz? c1; let c2 ← parseHoriz? c2
-      let sameV ← parseBool? sameV; let es ← parseBool? es; let x ← parseLeaf? x
+      let sameV ← parseBool? sameV; let es ← parseBool? es; let x ← parseRows? x
       if kind = "up" then pure (renderResample "up" (upsampleFn c1 c2 sameV es x))
       else if kind = "down" then pure (renderResample "down" (downsampleFn c1 c2 sameV es x))
       else if kind = "interp" then
         match interpolateFn c1 c2 sameV es x with
-        | .ok (true, y) => pure ("up " ++ renderLeaf y)
-        | .ok (false, y) => pure ("down " ++ renderLeaf y)
+        | .ok (true, y) => pure ("up " ++ renderRows y)
+        | .ok (false, y) => pure ("down " ++ renderRows y)
         | .error e => pure e.render
       else none
   | ["dimstable", "0", layers, modal, nodal, addl, times, samples] => do
